@@ -122,6 +122,9 @@ type DecorateProgram struct {
 	PlainOwner bool   // attachments carry a plain (non-controller) ownerReference to the target
 	// FinalizeAtOnce: the finalize answer is finalized:true with no attachments straight away
 	FinalizeAtOnce bool
+	// FinalizeKeep: the finalize answer is finalized:true and still lists the attachments
+	// as the sync answer does ("done; leave them as they are")
+	FinalizeKeep bool
 	// ResyncOnce: the first answer about a target asks to be called again after so many
 	// seconds (resyncAfterSeconds) and marks the target with an annotation; answers
 	// about a marked target do not ask again
@@ -192,6 +195,10 @@ func (dp *DecorateProgram) Finalize(req Object) Object {
 		total += len(observedOf(req, "attachments", k))
 	}
 	resp := dp.Sync(req)
+	if dp.FinalizeKeep {
+		resp["finalized"] = true
+		return resp
+	}
 	resp["attachments"] = []interface{}{}
 	resp["finalized"] = total == 0 || dp.FinalizeAtOnce
 	return resp
@@ -239,6 +246,7 @@ func NewTarget(res *Resource, ns, name string, replicas int, lbls, anns map[stri
 
 type DGenOpts struct {
 	PlainOwner    bool // allow programs whose attachments carry a plain ownerReference to the target
+	Keep          bool // allow finalize programs that answer finalized:true and keep listing the attachments
 	AtOnce        bool // allow finalize programs that answer finalized:true with no attachments straight away
 	ResyncOnce    bool // allow programs that ask once per target to be called again later (resyncAfterSeconds)
 	MaxDecorators int
@@ -290,6 +298,10 @@ func NewDecoratorSetup(w *World, g DGenOpts) *DSetup {
 		ds.Opts.Decorators = append(ds.Opts.Decorators, c)
 		dp := &DecorateProgram{Kinds: []*Resource{ak}, Tag: c.Name, PlainOwner: g.PlainOwner && t.Pick(6, "plainowner") == 5}
 		dp.FinalizeAtOnce = g.AtOnce && t.Pick(3, "atonce") == 2
+		if g.Keep && t.Pick(3, "finalizekeep") == 2 {
+			dp.FinalizeKeep = true
+			w.Cfg["finalizeKeeps-"+c.Name] = "true"
+		}
 		if g.ResyncOnce && t.Pick(3, "resynconce") == 2 {
 			dp.ResyncOnce = []float64{2, 8}[t.Pick(2, "resyncafter")]
 			w.ExtraQuiet = 10e9 // rest is judged only after the delayed key has come back
